@@ -10,7 +10,9 @@ import (
 	"go/types"
 	"math"
 	"math/big"
+	"os"
 	"strings"
+	"time"
 
 	"golang.org/x/tools/go/ssa"
 )
@@ -335,15 +337,16 @@ func (m *Machine) branch(c *Term, what string) bool {
 }
 
 // chooseCond picks one of several mutually exclusive, jointly exhaustive
-// conditions; alternatives found feasible are queued as other paths.
+// conditions; alternatives found feasible are queued as other paths. Decisions
+// that follow from the path condition (a conjunct already present, or the
+// exact domain of a byte-sized variable) consume no prefix entry and need no
+// solver call.
 func (m *Machine) chooseCond(conds []*Term, what string) int {
-	// constant shortcut
 	for i, c := range conds {
 		if c.IsTrue() {
 			return i
 		}
 	}
-	// a condition already on the path (or its negation) needs no solver call
 	if len(conds) == 2 {
 		if m.known(conds[0]) {
 			return 0
@@ -351,6 +354,29 @@ func (m *Machine) chooseCond(conds []*Term, what string) int {
 		if m.known(conds[1]) {
 			return 1
 		}
+	}
+	st := make([]int, len(conds))
+	possible, last := 0, -1
+	for i, c := range conds {
+		if c.IsFalse() {
+			st[i] = 2
+			continue
+		}
+		st[i] = m.domainDecide(c)
+		if st[i] == 1 {
+			return i
+		}
+		if st[i] != 2 {
+			possible++
+			last = i
+		}
+	}
+	if possible == 0 {
+		panic(&abortPath{"infeasible", what})
+	}
+	if possible == 1 {
+		m.assume(conds[last])
+		return last
 	}
 	if m.pos < len(m.prefix) {
 		k := m.prefix[m.pos]
@@ -361,16 +387,20 @@ func (m *Machine) chooseCond(conds []*Term, what string) int {
 	m.checkBudget()
 	var feas []int
 	for i, c := range conds {
-		if c.IsFalse() {
+		switch st[i] {
+		case 2:
+			continue
+		case 3:
+			feas = append(feas, i)
+			m.domDecided++
 			continue
 		}
 		// the last candidate is feasible for free when nothing else was
-		if i == len(conds)-1 && len(feas) == 0 && m.pcSat {
+		if i == last && len(feas) == 0 && m.pcSat {
 			feas = append(feas, i)
 			break
 		}
-		r := m.checkSat(c, "feasibility")
-		if r != "unsat" {
+		if r := m.checkSat(c, "feasibility"); r != "unsat" {
 			feas = append(feas, i)
 		}
 	}
@@ -387,6 +417,46 @@ func (m *Machine) chooseCond(conds []*Term, what string) int {
 	m.assume(conds[k])
 	m.decisions++
 	return k
+}
+
+// smallValues lists the distinct values a term over one byte-sized variable
+// takes on that variable's domain (nil if not applicable or more than max).
+func (m *Machine) smallValues(t *Term, max int) []uint64 {
+	v := singleByteVar(t)
+	if v == nil {
+		return nil
+	}
+	d := m.domOf(v)
+	seen := map[uint64]bool{}
+	var vals []uint64
+	mod := Model{}
+	for i := 0; i < 1<<uint(v.W); i++ {
+		if !d.has(i) {
+			continue
+		}
+		mod[v.Name] = uint64(i)
+		x := t.Eval(mod)
+		if !seen[x] {
+			seen[x] = true
+			vals = append(vals, x)
+			if len(vals) > max {
+				return nil
+			}
+		}
+	}
+	sortU64(vals)
+	return vals
+}
+
+// splitSmall forks a term over its few possible values (solver-free when the
+// variable is independent) and returns the constant chosen on this path.
+func (m *Machine) splitSmall(t *Term, vals []uint64, what string) *Term {
+	conds := make([]*Term, len(vals))
+	for i, v := range vals {
+		conds[i] = Eq(t, BV(t.W, v))
+	}
+	k := m.chooseCond(conds, what)
+	return BV(t.W, vals[k])
 }
 
 // chooseN is a pure nondeterministic choice among n alternatives (all feasible).
@@ -413,6 +483,9 @@ func (m *Machine) chooseN(n int, what string) int {
 func (m *Machine) concretise(t *Term, n int, what string) int {
 	if t.IsConst() {
 		return int(t.C)
+	}
+	if sv := m.smallValues(t, m.cfg.MaxConcretise); sv != nil {
+		return int(m.splitSmall(t, sv, what).C)
 	}
 	if n > m.cfg.MaxConcretise {
 		m.concretiseCut++
@@ -447,11 +520,109 @@ func (m *Machine) indexPC(c *Term) {
 	}
 }
 
+// ---- exact domains of byte-sized variables ----
+
+type byteDom [4]uint64
+
+func (d *byteDom) has(v int) bool { return d[v>>6]&(1<<uint(v&63)) != 0 }
+func (d *byteDom) del(v int)      { d[v>>6] &^= 1 << uint(v&63) }
+
+func singleByteVar(c *Term) *Term {
+	fv := c.FreeVars()
+	if len(fv) != 1 {
+		return nil
+	}
+	for _, v := range fv {
+		if v.W >= 1 && v.W <= 8 {
+			return v
+		}
+	}
+	return nil
+}
+
+func (m *Machine) domOf(v *Term) *byteDom {
+	if d, ok := m.dom[v.Name]; ok {
+		return d
+	}
+	d := &byteDom{}
+	for i := 0; i < 1<<uint(v.W); i++ {
+		d[i>>6] |= 1 << uint(i&63)
+	}
+	if m.dom == nil {
+		m.dom = map[string]*byteDom{}
+	}
+	m.dom[v.Name] = d
+	return d
+}
+
+// domainDecide evaluates a condition over a single byte-sized variable on the
+// variable's exact domain: 1 = true for every value, 2 = false for every value,
+// 3 = both occur and no other conjunct ties the variable to another one,
+// 0 = not decidable here.
+func (m *Machine) domainDecide(c *Term) int {
+	v := singleByteVar(c)
+	if v == nil {
+		return 0
+	}
+	d := m.domOf(v)
+	nt, nf := 0, 0
+	mod := Model{}
+	for i := 0; i < 1<<uint(v.W); i++ {
+		if !d.has(i) {
+			continue
+		}
+		mod[v.Name] = uint64(i)
+		if c.Eval(mod) == 1 {
+			nt++
+		} else {
+			nf++
+		}
+		if nt > 0 && nf > 0 {
+			break
+		}
+	}
+	switch {
+	case nt > 0 && nf == 0:
+		return 1
+	case nf > 0 && nt == 0:
+		return 2
+	case nt > 0 && nf > 0 && !m.multi[v.Name]:
+		return 3
+	}
+	return 0
+}
+
+func (m *Machine) narrowDomain(c *Term) {
+	if v := singleByteVar(c); v != nil {
+		d := m.domOf(v)
+		mod := Model{}
+		for i := 0; i < 1<<uint(v.W); i++ {
+			if d.has(i) {
+				mod[v.Name] = uint64(i)
+				if c.Eval(mod) != 1 {
+					d.del(i)
+				}
+			}
+		}
+		return
+	}
+	fv := c.FreeVars()
+	if len(fv) > 1 {
+		if m.multi == nil {
+			m.multi = map[string]bool{}
+		}
+		for n := range fv {
+			m.multi[n] = true
+		}
+	}
+}
+
 func (m *Machine) assume(c *Term) {
 	if c.IsTrue() {
 		return
 	}
 	m.indexPC(c)
+	m.narrowDomain(c)
 	m.pc = append(m.pc, c)
 	if m.sol != nil {
 		m.sol.Assert(c)
@@ -474,10 +645,26 @@ func (m *Machine) checkSat(c *Term, kind string) string {
 	}
 	m.sol.Push()
 	m.sol.Assert(c)
+	t0 := time.Now()
 	r := m.sol.Check(kind, m.cfg.FeasTimeout)
+	if d := time.Since(t0); slowLog > 0 && d > slowLog {
+		cs := c.String()
+		if len(cs) > 600 {
+			cs = cs[:600]
+		}
+		fmt.Fprintf(os.Stderr, "SLOW %v %s pc=%d vars=%d fn=%s\n   %s\n", d, r, len(m.pc), len(c.FreeVars()), m.stack[len(m.stack)-1], cs)
+	}
 	m.sol.Pop()
 	return r
 }
+
+var slowLog = func() time.Duration {
+	if v := os.Getenv("GOSYM_SLOW"); v != "" {
+		d, _ := time.ParseDuration(v)
+		return d
+	}
+	return 0
+}()
 
 // ---- constants ----
 
@@ -690,6 +877,13 @@ func (m *Machine) runBlock(fr *frame) *ssa.BasicBlock {
 			nphi++
 		}
 		for i := 0; i < nphi; i++ {
+			// keep loop-carried positions concrete when they can take only a
+			// few values (e.g. a UTF-8 sequence length read from a table)
+			if t, ok := vals[i].(*Term); ok && !t.IsConst() && t.W >= 32 {
+				if sv := m.smallValues(t, 8); sv != nil {
+					vals[i] = m.splitSmall(t, sv, "phi over a few values")
+				}
+			}
 			fr.env[b.Instrs[i].(*ssa.Phi)] = vals[i]
 		}
 	}
